@@ -26,6 +26,9 @@ func init() {
 	work.Register("C09", "c09.multi", c09Multi)
 	work.Register("C09", "c09.strings", c09Strings)
 	work.Register("C09", "c09.retain", c09Retain)
+	// the same executions decide a clause of C07: a Decode writes only inside the graph of its own
+	// destination, so values an earlier Decode of the same stream produced keep their contents
+	work.Register("C07", "c07.retain", c09Retain)
 }
 
 var errInjected = errors.New("injected reader failure")
